@@ -78,6 +78,7 @@ AnnMenu == <<
   << Ann(<<Rule("type", RStr("decimal")), Rule("precision", RNum("2"))>>, 0),
      Ann(<<Rule("min", RNum("-1.5"))>>, 1),
      Ann(<<Rule("type", RStr("decimal")), Rule("precision", RNum(Big))>>, 0),
+     Ann(<<Rule("type", RStr("decimal")), Rule("precision", RNum("9223372036854775807"))>>, 0),
      Ann(<<Rule("min", RNum("-1.50")), Rule("max", RNum("10.0")), Rule("exclusiveMaximum", RBool("true"))>>, 0),
      Ann(<<Rule("min", RNum("-0.50")), Rule("max", RNum("-0.5"))>>, 0),
      Ann(<<Rule("max", RNum("0.0"))>>, 1) >>,
@@ -110,7 +111,10 @@ AnnMenu == <<
   \* {"in": 12}
   << Ann(<<Rule("additionalProperties", RBool("false"))>>, 0),
      Ann(<<Rule("allOf", RStr("@base"))>>, 1),
-     Ann(<<Rule("allOf", RList(<< RStr("@base"), RStr("@base2") >>)), Rule("optional", RBool("true"))>>, 0) >>,
+     Ann(<<Rule("allOf", RList(<< RStr("@base"), RStr("@base2") >>)), Rule("optional", RBool("true"))>>, 0),
+     \* a list is reported as written, repetitions included (an empty type may be inherited twice)
+     Ann(<<Rule("allOf", RList(<< RStr("@marker"), RStr("@base"), RStr("@marker") >>))>>, 0),
+     Ann(<<Rule("allOf", RList(<< RStr("@marker"), RStr("@marker") >>))>>, 1) >>,
   \* {}
   << Ann(<<Rule("additionalProperties", RStr("string"))>>, 0), Ann(<<>>, 3) >>,
   \* []
